@@ -195,6 +195,8 @@ def run(ctx):
                     "$l.extend(($x for $x in self.slot_dict.get($key, ()) if $x.slot == $dslot))\n"
                     "if not $l or force:\n    self.slot_dict.setdefault($key, []).append(obj)\nreturn $l")
     ctx.check("R5", fs, M.has(fs.node, conflict_def), "slot-conflict-definition", "a conflict is a matching limiter or an occupant of the same key and slot; insertion happens only without conflicts (or forced)")
+    from .C17 import slot_primitive_exact   # un-slotting one package must not vacate entries of others (slot occupancy is what "one package per slot" is judged on)
+    slot_primitive_exact(ctx, "R5")
     inc = P.func(ST, "incref_forward_block_op.apply")
     ra_ = [c for c in A.calls(inc.node) if A.unparse(c.func).endswith(".blockers_refcnt.add")]
     ctx.check("R5", inc, len(ra_) == 1 and not any(isinstance(p, ast.If) for p in A.parents(ra_[0])), "blocker-refcount-unconditional", "every registration of a blocker takes a reference (also when the limiter already exists)",
